@@ -328,6 +328,10 @@ def _e2e(case, obs):
         obs.count("cvar.e2e")
         obs.nontrivial("e2e", case["i"])
         if res.functions is None:
+            if first is not None and first["method"].startswith("sort") and cw is not None and not np.any(np.where(failed, 0.0, np.asarray(cw)) > 0):
+                # the sort filter in front (full window) has no successful realization with a positive configured weight: too few
+                obs.count("cvar.e2e_front_sort_filter_without_positive_weight")
+                return
             obs.violation("e2e_no_functions", n=n, failed=failed)
             return
         isobj = fl in ("objective", "objective_neg")
